@@ -20,6 +20,7 @@ class ManagedEnv(Env):
             'pred': ('keep', 'remove'),         # + panic
             'timer': True,                      # Runtime::timeout may expire whenever its inner future is Pending
             'unmanaged': False,
+            'cb_points': True,                  # thread mode: Manager::detach is a schedule point (user code may block there)
         }
         c.update(cfg or {})
         s.cfg = c
@@ -73,6 +74,7 @@ class ManagedEnv(Env):
         return out
 
     def poll_CreateFut(s, M, st, th, fut, fref):
+        if fut.f[1] == STUCK: return [('ret', st, PENDING)]
         outs = []
         for o in s._choices('create', fut.f[1]):
             st2 = st.clone() if True else st
@@ -113,6 +115,7 @@ class ManagedEnv(Env):
         return s.ret(st, Agg('RecycleFut', [I(n), FRESH, Opaque(oid)]))
 
     def poll_RecycleFut(s, M, st, th, fut, fref):
+        if fut.f[1] == STUCK: return [('ret', st, PENDING)]
         outs = []
         for o in s._choices('recycle', fut.f[1]):
             st2 = st.clone(); st2.logev('env', 'recycle', fut.f[0].v, o)
@@ -135,7 +138,19 @@ class ManagedEnv(Env):
         oid = s.oid_of(M, st, a[1])
         st.logev('detach', oid, th.name)
         s.g_obj(st, oid, detached='+1')
+        if s.cfg.get('cb_points') and not M.task_mode and not s.lock_held(M, st, th):
+            return [('yield', st, 'cb.detach')]
         return s.ret(st, UNIT)
+
+    def lock_held(s, M, st, th):
+        tag = Opaque('owner:' + th.name)
+        def walk(v):
+            if isinstance(v, Agg):
+                if v.ty == 'Mutex': return v.f[1] == tag
+                if v.ty in ('Obj',): return False
+                return any(walk(x) for x in v.f.values())
+            return False
+        return any(walk(v) for v in st.heap.values() if isinstance(v, Agg) and v.ty in ('ArcInner', 'PoolInner'))
 
     def metrics_tuple(s, met):
         if not (isinstance(met, Agg) and met.ty == 'Metrics'): raise InternalError(f'not Metrics: {met!r}')
@@ -187,6 +202,7 @@ class ManagedEnv(Env):
 
     def poll_HookFut(s, M, st, th, fut, fref):
         kind = fut.f[0].tag; idx = fut.f[1].v
+        if fut.f[2] == STUCK: return [('ret', st, PENDING)]
         outs = []
         for o in s._choices('hook', fut.f[2]):
             st2 = st.clone(); st2.logev('env', 'hook', kind, idx, o)
@@ -255,11 +271,14 @@ class ManagedEnv(Env):
         zero = b_and(binop('Eq', dur.f[0], I(0)), binop('Eq', dur.f[1], I(0, 32)))
         outs = []
         for st2, is_zero in M.fork_on(st, zero):
-            choices = [True] if is_zero else ([True, False] if s.cfg['timer'] else [False])
+            first = M.deref(st2, fref).f[2] == FRESH
+            choices = [True] if is_zero else ([True, False] if (s.cfg['timer'] and not first) else [False])
             for i, expire in enumerate(choices):
                 st3 = st2.clone() if i < len(choices) - 1 else st2
                 th3 = st3.threads[th.name]
                 if not expire:
+                    f3 = M.deref(st3, fref)
+                    if f3.f[2] == FRESH: M.write(st3, fref, f3.with_field(2, ONCE))
                     outs.append(('ret', st3, PENDING)); continue
                 f3 = M.deref(st3, fref); inner = f3.f[0]
                 st3.logev('env', 'timer', f3.f[3].v, 'expired', s.timer_kind(inner))
